@@ -139,6 +139,7 @@ func (V *Verifier) initGhost(x *X, s *State) {
 	s.assume(rangeFact(tm(s.ghost["AuctionSeq"]), u64))
 	s.ghost["Params"] = GRec{Present: x.sym("Params.present", "Bool"), V: x.mk(s, "Params", V.lookupType("Params"), idWrap, true)}
 	s.ghost["Bal"] = Sc{T: x.sym("Bal", "(Array Addr (Array Str Int))"), Sort: "(Array Addr (Array Str Int))"}
+	x.assumeBalNonNeg(s)
 	s.ghost["Pool"] = Sc{T: x.sym("Pool", "(Array Str Int)"), Sort: "(Array Str Int)"}
 	s.ghost["BlockTime"] = Sc{T: x.sym("BlockTime", "Int"), Sort: "Int"}
 	s.ghost["Clock"] = Sc{T: x.sym("Clock", "Int"), Sort: "Int"}
@@ -327,4 +328,11 @@ func hookName(ev *Ev, v Val) string {
 		ev.errf("expected a string literal")
 	}
 	return n
+}
+
+// assumeBalNonNeg: the bank never holds a negative balance (part of the bank model, A7).
+func (x *X) assumeBalNonNeg(s *State) {
+	a, d := x.bound("a", "Addr"), x.bound("d", "Str")
+	b := tm(s.ghost["Bal"])
+	s.assume(fmt.Sprintf("(forall ((%s Addr) (%s Str)) (! (>= (select (select %s %s) %s) 0) :pattern ((select (select %s %s) %s))))", a, d, b, a, d, b, a, d))
 }
